@@ -159,6 +159,12 @@ func refEqual(x, y any) bool {
 		db, ok := refDec(y)
 		return ok && da.Equal(db)
 	}
+	// number texts beyond the decimal range (1e10101): the same text is the same number
+	if a, ok := x.(json.Number); ok && !vrtSymbolic() {
+		if b, ok := y.(json.Number); ok {
+			return a == b
+		}
+	}
 	return false
 }
 
